@@ -1,5 +1,6 @@
 import FastgoModel.Proofs.WriterControl
 import FastgoModel.Writer.Example
+import FastgoModel.Proofs.WriterWrap
 /-!
 # C14 — a failing destination is reported, sticks, and never leads to a bad state
 
@@ -68,8 +69,27 @@ example :
     r.2.map (·.err) = [none, some .injected, some .injected, some .injected] ∧ r.1.dst.calls = 2 := by
   decide
 
+/-- the container Writers (control models `Container/WriterWrap.lean`, tied by ZW / GW), for ANY inner Writer: once
+    an error is stored every call returns it, leaves the state and therefore the destination untouched. For
+    zlib the header step runs before the error check, so the statement needs the invariant "a stored error
+    implies the header step has been taken", which every operation establishes (`C14_zlib_invariant`). -/
+theorem C14_gzip_sticky {ι : Type} (O : CWriter.InnerOps ι) (z : CWriter.GW ι) (e : Err) (he : z.err = some e) :
+    (∀ p, CWriter.gWrite O z p = (z, { n := 0, err := some e })) ∧ CWriter.gFlush O z = (z, { err := some e }) ∧
+    CWriter.gClose O z = (z, { err := some e }) := CWriter.gzip_sticky O z e he
+
+theorem C14_zlib_sticky {ι : Type} (O : CWriter.InnerOps ι) (z : CWriter.ZW ι) (e : Err) (he : z.err = some e)
+    (hi : CWriter.ZErrInv z) :
+    (∀ p, CWriter.zWrite O z p = (z, { n := 0, err := some e })) ∧ CWriter.zFlush O z = (z, { err := some e }) ∧
+    CWriter.zClose O z = (z, { err := some e }) := CWriter.zlib_sticky O z e he hi
+
+theorem C14_zlib_invariant {ι : Type} (O : CWriter.InnerOps ι) (z : CWriter.ZW ι) (op : Op) :
+    CWriter.ZErrInv (CWriter.zStep O z op).1 := CWriter.zStep_errInv O z op
+
 end Fastgo.Writer
 
+#print axioms Fastgo.Writer.C14_gzip_sticky
+#print axioms Fastgo.Writer.C14_zlib_sticky
+#print axioms Fastgo.Writer.C14_zlib_invariant
 #print axioms Fastgo.Writer.C14_reported
 #print axioms Fastgo.Writer.C14_failure_recorded
 #print axioms Fastgo.Writer.C14_sticky
